@@ -38,3 +38,23 @@ Example C19_example :
   wrap_text [97; 97; 32; 98; 98; 98; 32; 99; 32; 100; 100; 100; 100; 100; 100; 100]%N 5%Z
   = Some [[97; 97]; [98; 98; 98; 32; 99]; [100; 100; 100; 100; 100; 100; 100]]%N.
 Proof. vm_compute. reflexivity. Qed.
+
+(* ---- the indentation clause, over the model of TextWrappingSerializer (Ws/Wrap.v, hand-written and tied
+   to the code by the correspondence checks of C03 and C19): for a text-only element whose text is written
+   over lines at nesting level L, for every width >= 1, every indentation string without line feeds, every
+   fitting oracle `req` and every writer state at the start of a line, the output is exactly the lines of
+   the generated wrap_text on the escaped text, each prefixed by the indentation repeated L times and
+   ended by a newline. *)
+From Delb.Base Require Import PyStrFacts.
+From Delb.Ws Require Import Pretty Wrap WrapTextOnly.
+
+Theorem C19_text_lines_indented :
+  forall (ind : str) (width : Z) (req : rpath -> Z -> option Z),
+  no_lf ind = true -> (1 <= width)%Z ->
+  forall (L : nat) (st : wst) (rp : rpath) (aft : option rpath) (k : str),
+  core k -> w_off st = 0%Z ->
+  exists ls, wrap_text (esc_text k) width = Some ls /\
+    render_list (fst (w_text ind width req L st rp None k None aft))
+    = flat_map (fun l => repeat_str ind L ++ l ++ NL) ls.
+Proof. exact text_only_lines_str. Qed.
+Print Assumptions C19_text_lines_indented.
